@@ -183,27 +183,50 @@ class MayRaise:
             nm = f.attr if isinstance(f, ast.Attribute) else (f.id if isinstance(f, ast.Name) else None)
             if nm and self.u.is_exc(nm):
                 return [nm]
-            # helper returning an exception object: use its return annotation / returned constructors
-            res = self.prog.resolve_call(fi, e)
-            out = []
-            for c in res:
-                for n in ast.walk(c.node):
-                    if isinstance(n, ast.Return) and isinstance(n.value, ast.Call):
-                        g = n.value.func
-                        nm2 = g.attr if isinstance(g, ast.Attribute) else (g.id if isinstance(g, ast.Name) else None)
-                        if nm2 and self.u.is_exc(nm2):
-                            out.append(nm2)
-            return out or ["Exception"]
+            # helper returning an exception object: its returned constructors (through further helpers), else its return annotation
+            return self._built_by(fi, e, 0) or ["Exception"]
         if isinstance(e, ast.Name):
             for var, names in reversed(handler_stack):
                 if var == e.id:
                     return list(names)
             if self.u.is_exc(e.id):
                 return [e.id]
+            # a local that holds the exception object: `err = SomeError(...)` ... `raise err`
+            defs = [n for n in own_nodes(fi.node) if isinstance(n, ast.Assign) and len(n.targets) == 1 and isinstance(n.targets[0], ast.Name)
+                    and n.targets[0].id == e.id]
+            if defs and all(isinstance(d.value, ast.Call) for d in defs):
+                out = []
+                for d in defs:
+                    got = self._raised_class(fi, d.value, handler_stack)
+                    out.extend(got)
+                if out and "Exception" not in out:
+                    return out
             return ["Exception"]
         if isinstance(e, ast.Attribute) and self.u.is_exc(e.attr):
             return [e.attr]
         return ["Exception"]
+
+    def _built_by(self, fi, call, depth):
+        """exception classes of the object a helper call hands back"""
+        out = []
+        for c in self.prog.resolve_call(fi, call):
+            if isinstance(c.node, ast.Lambda):
+                continue
+            found = []
+            for n in ast.walk(c.node):
+                if isinstance(n, ast.Return) and isinstance(n.value, ast.Call):
+                    g = n.value.func
+                    nm2 = g.attr if isinstance(g, ast.Attribute) else (g.id if isinstance(g, ast.Name) else None)
+                    if nm2 and self.u.is_exc(nm2):
+                        found.append(nm2)
+                    elif depth < 3:
+                        found.extend(self._built_by(c, n.value, depth + 1))
+            if not found and getattr(c.node, "returns", None) is not None:
+                ann = ast.unparse(c.node.returns).strip("'\"").split(".")[-1]
+                if self.u.is_exc(ann):
+                    found.append(ann)
+            out.extend(found)
+        return out
 
     def _analyse(self, fi):
         out = {}
